@@ -147,6 +147,56 @@ def check_mask_invariant(res, facts):
         res.ob('R-MASK', 'is_allowed', ok and not spec_fields_changed(pre, o.cells[cell], Q_FIELDS), 'is_allowed = %r; expected bit `note` of the mask' % (o.ret,), where_of(facts, Q + '::is_allowed'))
 
 
+def check_search_history_free(res, facts):
+    """C09: outside the hysteresis window the result is what a quantizer without history reports: on every
+    non-early path of convert() the new note carries no symbol of the previous conversion, and no branch taken inside the
+    search helpers (functions other than convert / is_allowed) depends on one"""
+    qz = Qz(facts)
+    where = where_of(facts, Q + '::convert')
+    it = qz.interp()
+    st = State()
+    q = qz.quantizer(it, st, cached='consistent')
+    v = float_sym(st, 'v', 0, qz.VMAX)
+    run = SearchRun(qz, 'B', 'B')
+    it.loop_hook = run.hook
+    pre = copy.deepcopy(q)
+    try:
+        outs, cell = run_method(it, st, Q + '::convert', q, [v])
+    except InterpError as e:
+        res.ob('R-HYST', 'history-free search', False, 'analysis failed: %s' % e, where)
+        return
+    res.absorb(it)
+    cc0 = pre.get('cached_conversion')
+    n = 0
+    own = {Q + '::convert', Q + '::is_allowed'}
+
+    def cached_syms(p):
+        return sorted({a[1] for a in all_atoms(p) if a[0] == 'sym' and (a[1].startswith('cached.') or a[1].startswith('self.cached_conversion'))})
+    for o in sem_iter(outs):
+        if o.status != 'returned' or not isinstance(o.ret, StructV):
+            continue
+        cc1 = o.cells[cell].get('cached_conversion')
+        with structural():
+            early = same(cc0.get('note_num'), cc1.get('note_num')) and same(cc0.get('stairstep'), cc1.get('stairstep'))
+        if early:
+            continue
+        n += 1
+        note = cc1.get('note_num')
+        bad = cached_syms(note.term) if isinstance(note, Num) else ['?']
+        dep = []
+        for f, org in o.ctx.origins.items():
+            if org in own or not org.startswith('synth_utils::quantizer::'):
+                continue
+            polys = [x for x in f.k[1:] if isinstance(x, Poly)]
+            for pp in polys:
+                cs = cached_syms(pp)
+                if cs:
+                    dep.append('%s in %s' % (cs, org.split('::')[-1]))
+        res.ob('R-HYST', 'search outside the window is history-free (path %d)' % n, not bad and not dep,
+               'new note depends on the previous conversion: value symbols %s; branches %s' % (bad, sorted(set(dep))[:4]), where, key='R-HYST:search-history-free:%d' % n)
+    res.floor('history_free_paths', n, 4)
+
+
 def check_forbid_rescue(res, facts):
     """forbid(notes) = allowed & !bits(notes), except that an emptied scale becomes exactly {last note of the argument};
     decided exactly for argument slices of length 1 and 2 with symbolic notes (the for_each is unrolled)"""
@@ -228,8 +278,13 @@ def run_convert(qz, cached, v_part, allowed_point=None):
     it = qz.interp()
     st = State()
     q = qz.quantizer(it, st, cached=cached)
+    from ..terms import PINF_ATOM, NINF_ATOM
     if v_part == 'nan':
         v = Num(NAN, 'f32')
+    elif v_part == '+inf':
+        v = Num(Poly.atom(PINF_ATOM), 'f32')
+    elif v_part == '-inf':
+        v = Num(Poly.atom(NINF_ATOM), 'f32')
     else:
         v = float_sym(st, 'v', *v_part)
     calls = []
@@ -255,7 +310,8 @@ def check_convert(res, facts, prop):
            'SEMITONE_WIDTH=%s HYSTERESIS=%s V_MAX=%s (expected 1/12, 1/120, MAX_OCTAVE)' % (float(W), float(H), float(qz.VMAX)))
     n = 0
     for cached in ('consistent', 'fresh'):
-        for vname, v_part in (('finite', (-INF, INF)), ('nan', 'nan')):
+        FMAX = Fr(2 ** 128 - 2 ** 104)
+        for vname, v_part in (('finite', (-FMAX, FMAX)), ('+inf', '+inf'), ('-inf', '-inf'), ('nan', 'nan')):
             try:
                 it, outs, cell, pre, v = run_convert(qz, cached, v_part)
             except InterpError as e:
@@ -292,8 +348,8 @@ def check_convert(res, facts, prop):
                         res.ob('R-HYST', inst + '|first conversion is history-free', False,
                                'the hysteresis early return is reachable from the freshly constructed quantizer (sentinel stairstep %r): it would report a conversion that never happened' % (ss0,), where, key='R-HYST:fresh-early')
                         continue
-                    if vname == 'nan':
-                        res.ob('R-HYST', inst + '|NaN never inside the window', False, 'early return taken for a NaN input', where, key='R-HYST:nan-early')
+                    if vname in ('nan', '+inf', '-inf'):
+                        res.ob('R-HYST', inst + '|NaN / infinite input never inside the window', False, 'early return taken for a %s input' % vname, where, key='R-HYST:nan-early')
                         continue
                     pc = Poly.sym('cached.pc')
                     en = o.ctx.decide(qz.enabled(allowed, pc, o.ctx))
@@ -309,14 +365,16 @@ def check_convert(res, facts, prop):
                             ch = set(spec_fields_changed(pre, post, Q_FIELDS))
                             res.ob('R-HYST', inst + '|early return rewrites only the fraction', ch <= {'cached_conversion.fraction'}, 'changed %s' % sorted(ch), where, key='R-HYST:early-writes')
                         fr1 = cc1.get('fraction')
-                        res.ob('R-RECORD', inst + '|early fraction = v - stairstep', isinstance(fr1, Num) and fr1.term == v.term - ss0,
-                               'fraction = %r; expected v - stairstep' % (fr1,), where, key='R-RECORD:early-fraction')
+                        vcl = t_min(t_max(v.term, ZERO, o.ctx, 'fmax'), Poly.const(qz.VMAX), o.ctx, 'fmin')
+                        res.ob('R-RECORD', inst + '|early fraction = v - stairstep (input or its clamped value)',
+                               isinstance(fr1, Num) and (fr1.term == v.term - ss0 or fr1.term == vcl - ss0),
+                               'fraction = %r; expected v - stairstep or clamp(v) - stairstep' % (fr1,), where, key='R-RECORD:early-fraction')
                         if prop == 'C19' and isinstance(fr1, Num):
                             lo, hi = o.ctx.rng(fr1.term)
                             res.ob('R-RECORD', inst + '|early fraction within [-0.1, 1.1] semitones', lo >= -H and hi <= W + H,
                                    'fraction in [%s,%s] V' % (float(lo) if lo != -INF else lo, float(hi) if hi != INF else hi), where, key='R-RECORD:early-range')
                 else:
-                    if cached == 'consistent' and vname == 'finite' and prop == 'C09':
+                    if cached == 'consistent' and vname == 'finite' and prop == 'C09':  # noqa
                         pc = Poly.sym('cached.pc')
                         en = o.ctx.decide(qz.enabled(allowed, pc, o.ctx))
                         lo_ok = o.ctx.decide(cmp_term('Gt', v.term, ss0 - H))
@@ -325,7 +383,7 @@ def check_convert(res, facts, prop):
                                'the note is re-searched on a path where none of (pitch class forbidden, v <= stairstep-H, v >= stairstep+W+H) is implied: enabled=%s low=%s high=%s' % (en, lo_ok, hi_ok), where,
                                key='R-HYST:fallthrough-window')
                     # memoryless path
-                    vc = Poly.const(0) if vname == 'nan' else t_min(t_max(v.term, ZERO, o.ctx, 'fmax'), Poly.const(qz.VMAX), o.ctx, 'fmin')
+                    vc = Poly.const(0) if vname == 'nan' else (Poly.const(qz.VMAX) if vname == '+inf' else (ZERO if vname == '-inf' else t_min(t_max(v.term, ZERO, o.ctx, 'fmax'), Poly.const(qz.VMAX), o.ctx, 'fmin')))
                     arg = fnn[0][1] if fnn else None
                     if prop in ('C08', 'C09', 'C19') and has_stub:
                         res.ob('R-HYST', inst + '|search input is the clamped input', len(fnn) == 1 and arg == vc,
